@@ -1075,6 +1075,15 @@ func genPairs(r *core.Rand, c *Config, n int) {
 					m.Sub = r.Intn(pe.subs)
 				}
 			}
+			if m.Route == 0 {
+				// no route drawn: the message goes to an unregistered name - which IS the unknown handler's route when the
+				// receiving peer has one (the last one set counts)
+				for j := range dst.Ops {
+					if dst.Ops[j].Kind == want {
+						m.Route = dst.Ops[j].ID
+					}
+				}
+			}
 			kinds := pairKindsCall
 			if m.Kind == "push" {
 				kinds = pairKindsPush
